@@ -626,6 +626,11 @@ def _enclosing_numeric(catch, x0):
     return val
 
 
+def _mx(a):
+    a = onp.asarray(a)
+    return float(onp.max(onp.abs(a), initial=0.0)) if a.size and onp.all(onp.isfinite(a)) else 1.0
+
+
 def reuse_body(tname, c):
     """One derivative-function object of a drawn primitive configuration used several times: every call of the VJP function is a pure
     function of its cotangent (first / other / first again), and so is every call of the JVP function of its tangent."""
@@ -650,7 +655,15 @@ def reuse_body(tname, c):
     results = {}
     try:
         vjp, y = autograd.make_vjp(inst.f(AG))(inst.x_carried())
-        results["vjp"] = [onp.asarray(vjp(g1)), onp.asarray(vjp(g2)), onp.asarray(vjp(g1))]
+        g1_0, g2_0 = g1.copy(), g2.copy()
+        # first / first again at once / other / first again (copies: a result must not change when the function is called again)
+        results["vjp"] = [onp.array(vjp(g1)), onp.array(vjp(g2)), onp.array(vjp(g1))]
+        results["vjp"].insert(1, None)
+        vjp_b = autograd.make_vjp(inst.f(AG))(inst.x_carried())[0]
+        first, again = onp.array(vjp_b(g1)), onp.array(vjp_b(g1))
+        results["vjp"][1] = again if (first.shape == results["vjp"][0].shape and onp.allclose(first, results["vjp"][0], rtol=1e-5, atol=1e-5 * (1.0 + _mx(first)), equal_nan=True)) else first
+        results["vjp_fresh"] = (onp.array(vjp_b(g2)), results["vjp"][2])
+        results["vjp_args"] = (onp.array_equal(g1, g1_0, equal_nan=True) and onp.array_equal(g2, g2_0, equal_nan=True))
     except Exception as e:
         if not from_autograd(e):
             raise
@@ -661,16 +674,28 @@ def reuse_body(tname, c):
         if xa.ndim == 0 and not isinstance(inst.x_carried(), onp.ndarray):
             v1, v2 = (complex(v1), complex(v2)) if xa.dtype.kind == "c" else (float(v1), float(v2))
         jvp = autograd.make_jvp(inst.f(AG))(inst.x_carried())
-        results["jvp"] = [onp.asarray(jvp(v1)[1]), onp.asarray(jvp(v2)[1]), onp.asarray(jvp(v1)[1])]
+        results["jvp"] = [onp.array(jvp(v1)[1]), onp.array(jvp(v1)[1]), onp.array(jvp(v2)[1]), onp.array(jvp(v1)[1])]
     except Exception as e:
         if not from_autograd(e):
             raise
         results["jvp"] = e
-    if all(isinstance(r, Exception) for r in results.values()):
+    if all(isinstance(results[k_], Exception) for k_ in ("vjp", "jvp")):
         return _raised(results["vjp"], "reuse", sample=sample)
-    for api, r in results.items():
+    if results.get("vjp_args") is False:
+        return fail("history_dependence", f"the VJP function of {tname} {inst.call.desc} changed the cotangent array the caller passed in", f"C19|reuse|vjp_cotangent|{tname}", sample=sample)
+    if "vjp_fresh" in results:
+        a_, b_ = results["vjp_fresh"]
+        if a_.shape != b_.shape or not onp.allclose(a_, b_, rtol=1e-5, atol=1e-5 * (1.0 + _mx(b_)), equal_nan=True):
+            return fail("history_dependence", f"the VJP function of {tname} {inst.call.desc}: its third call gives another answer than the third call of a second function "
+                        "object built the same way (whose first two calls had the same cotangent)", f"C19|reuse|vjp_sequence|{tname}", sample=sample)
+    for api in ("vjp", "jvp"):
+        r = results[api]
         if isinstance(r, Exception):
             continue
+        if r[0].shape != r[1].shape or not onp.allclose(r[0], r[1], rtol=1e-5, atol=1e-5 * (1.0 + _mx(r[0])), equal_nan=True):
+            return fail("history_dependence", f"the {api.upper()} function of {tname} {inst.call.desc} gives a different answer on its second call with the same argument",
+                        f"C19|reuse|{api}_second_call|{tname}", sample=sample)
+        r = [r[0], r[2], r[3]]
         if r[0].shape != r[2].shape or not onp.array_equal(r[0], r[2], equal_nan=True):
             return fail("history_dependence", f"the {api.upper()} function of {tname} {inst.call.desc} gives a different answer when called again with the same "
                         "argument after an intermediate call", f"C19|reuse|{api}|{tname}", sample=sample)
